@@ -16,6 +16,7 @@ import (
 	"fmt"
 	"net"
 	"os"
+	osexec "os/exec"
 	"path/filepath"
 	"strconv"
 	"strings"
@@ -579,6 +580,113 @@ func gen(g *hx.Gen) {
 		q, certs := genQueries(r, g, w, t, 10)
 		g.Emit("kh now=%d file=%s kt=%s certs=%s q=%s", now, hx.Hex(file), ktStr(t), certs, q)
 	}
+	// the two points where the code's decision is not the property's (OpenSSH's) — model answers per the
+	// property for exactly this op class; disagreements are listed in known_findings.txt
+	nP := g.Count(60, 2000)
+	for i := 0; i < nP; i++ {
+		t := newIDs()
+		hostKey, other := w.keys[r.Intn(3)].pub, w.keys[3+r.Intn(2)].pub
+		ca := hx.Pick(r, w.cas).pub
+		line := func(marker, pat string, k ssh.PublicKey) string {
+			ty, b := keyFields(k)
+			if marker != "" {
+				return marker + " " + pat + " " + ty + " " + b
+			}
+			return pat + " " + ty + " " + b
+		}
+		q := func(addr string, k ssh.PublicKey) string {
+			t.addBlob(k.Marshal())
+			return fmt.Sprintf("%s/%s/%d", hx.Hex([]byte(addr)), hx.Hex([]byte("10.0.0.1:22")), t.id(k))
+		}
+		var lines, qs []string
+		cls := "ca"
+		if i%2 == 0 { // a plain host key that equals a key listed only with @cert-authority (lower-case hosts only)
+			h := r.PickStr("host", "a.example.com", "10.0.0.1")
+			lines = append(lines, line("@cert-authority", r.PickStr(h, "*", h+",x"), ca))
+			if r.Bool() {
+				lines = append(lines, line("", h, hostKey))
+			}
+			if r.Bool() {
+				lines = append([]string{"# c", line("", "unrelated", other)}, lines...)
+			}
+			qs = append(qs, q(h+":22", ca), q(h+":22", hostKey), q(h+":22", other), q("elsewhere:22", ca))
+			g.Stat("khp.ca-line-as-hostkey")
+		} else { // upper/lower case in pattern or host name (no markers)
+			cls = "case"
+			lo := r.PickStr("host", "bad.example.com", "h")
+			up := strings.ToUpper(lo[:1]) + lo[1:]
+			switch r.Intn(4) {
+			case 0:
+				lines = append(lines, line("", up, hostKey))
+			case 1:
+				lines = append(lines, line("", lo, hostKey))
+			case 2:
+				lines = append(lines, line("", "*,!"+up, hostKey))
+			default:
+				lines = append(lines, line("", "*,!"+lo, hostKey), line("", strings.ToUpper(lo)+"*", other))
+			}
+			qs = append(qs, q(lo+":22", hostKey), q(up+":22", hostKey), q(strings.ToUpper(lo)+":22", hostKey), q("zzz:22", hostKey), q(lo+":22", other))
+			g.Stat("khp.case")
+		}
+		file := []byte(strings.Join(lines, "\n") + "\n")
+		t.scanFile(file)
+		g.Emit("khp cls=%s now=%d file=%s kt=%s certs=- q=%s", cls, now, hx.Hex(file), ktStr(t), strings.Join(qs, ","))
+	}
+	// second witness (thorough tier only): `ssh-keygen -F host -f file` must report the same matching lines
+	// as the callback, on the subset both read alike (no markers, lower-case hosts, valid lines)
+	if g.Thorough() {
+		lower := []string{"a", "ab", "abc", "b.a", "host", "host1", "hostx", "x.example.com", "example.com", "10.0.0.1", "10.0.0.12", "::1", "fe80::1", "h"}
+		for i := 0; i < 3000; i++ {
+			var sb strings.Builder
+			type hp struct{ h, p string }
+			var used []hp
+			for n := r.Range(1, 12); n > 0; n-- {
+				if r.Chance(1, 8) {
+					sb.WriteString("# comment\n")
+					continue
+				}
+				ty, b := keyFields(hx.Pick(r, w.keys).pub)
+				var field string
+				if r.Chance(1, 3) {
+					h, p := hx.Pick(r, lower), r.PickStr("22", "22", "2222")
+					used = append(used, hp{h, p})
+					salt := r.Bytes(20)
+					field = "|1|" + base64.StdEncoding.EncodeToString(salt) + "|" + base64.StdEncoding.EncodeToString(hmacSha1(salt, []byte(normHP(h, p))))
+				} else {
+					var el []string
+					for m := r.PickInt(1, 1, 2, 3); m > 0; m-- {
+						h, p := hx.Pick(r, lower), r.PickStr("22", "22", "22", "2222")
+						used = append(used, hp{h, p})
+						pat := h
+						if !strings.Contains(h, ":") {
+							pat = mutPattern(r, h)
+						}
+						if pat == "" {
+							pat = h
+						}
+						if p != "22" {
+							pat = "[" + pat + "]:" + p
+						}
+						if r.Chance(1, 6) {
+							pat = "!" + pat
+						}
+						el = append(el, pat)
+					}
+					field = strings.Join(el, ",")
+				}
+				sb.WriteString(field + " " + ty + " " + b + "\n")
+			}
+			q := hp{hx.Pick(r, lower), r.PickStr("22", "2222")}
+			if len(used) > 0 && r.Chance(4, 5) {
+				q = hx.Pick(r, used)
+			}
+			file := []byte(sb.String())
+			t := newIDs()
+			t.scanFile(file)
+			g.Stat("skf.ssh-keygen-witness")
+			g.Emit("skf file=%s kt=%s host=%s port=%s", hx.Hex(file), ktStr(t), hx.Hex([]byte(q.h)), q.p)
+		}
+	}
 	// Line / HashHostname round trips and outputs
 	nAux := g.Count(800, 20000)
 	for i := 0; i < nAux; i++ {
@@ -781,6 +889,43 @@ func runQueries(o hx.Op, file []byte) string {
 	return strings.Join(out, "|")
 }
 
+// execKeygen: matching lines according to the callback (KeyError.Want for a key that is nowhere in the
+// file) and according to `ssh-keygen -F`.
+func execKeygen(o hx.Op) string {
+	file := o.Hex("file")
+	host, port := string(o.Hex("host")), o.Str("port")
+	fn := tmpFile(file)
+	defer os.Remove(fn)
+	cb, err := knownhosts.New(fn)
+	if err != nil {
+		return "parse-err"
+	}
+	probe, _ := ssh.NewPublicKey(ed25519.NewKeyFromSeed(bytes.Repeat([]byte{0x5c}, 32)).Public())
+	addr := host + ":" + port
+	if strings.Contains(host, ":") {
+		addr = "[" + host + "]:" + port
+	}
+	v := verdict(cb(addr, strAddr("10.9.9.9:22"), probe))
+	if !strings.HasPrefix(v, "keyerr:") {
+		return v
+	}
+	goLines := strings.TrimPrefix(v, "keyerr:")
+	out, _ := osexec.Command("ssh-keygen", "-F", normHP(host, port), "-f", fn).Output()
+	var kg []int
+	for _, l := range strings.Split(string(out), "\n") {
+		if i := strings.Index(l, " found: line "); strings.HasPrefix(l, "# Host ") && i > 0 {
+			n, err := strconv.Atoi(strings.Fields(l[i+len(" found: line "):])[0])
+			if err == nil {
+				kg = append(kg, n)
+			}
+		}
+	}
+	if hx.JoinInts(kg) == goLines {
+		return "lines:" + goLines + " keygen:same"
+	}
+	return "lines:" + goLines + " keygen:" + hx.JoinInts(kg)
+}
+
 func strList(o hx.Op, k string) []string {
 	var out []string
 	for _, h := range o.List(k) {
@@ -814,8 +959,10 @@ func hashHostname(host string, salt []byte) string {
 func exec(line string) string {
 	o := hx.Parse(line)
 	switch o.Cmd {
-	case "kh":
+	case "kh", "khp":
 		return runQueries(o, o.Hex("file"))
+	case "skf":
+		return execKeygen(o)
 	case "lq":
 		k, err := ssh.ParsePublicKey(o.Hex("blob"))
 		if err != nil {
